@@ -3,6 +3,7 @@ package h
 import (
 	"encoding/hex"
 	"fmt"
+	"image"
 	"image/color"
 	"math"
 	"strconv"
@@ -98,6 +99,19 @@ func ParseCall(t []string) (c Call, err error) {
 	case "Z", "rc", "rn", "rlod", "bytes":
 	case "hires":
 		c.B = t[1] == "1"
+	case "rast":
+		if len(t) != 5 {
+			return c, fmt.Errorf("bad rast %v", t)
+		}
+		var v [4]int
+		for i := range v {
+			n, e := strconv.Atoi(t[1+i])
+			if e != nil {
+				return c, e
+			}
+			v[i] = n
+		}
+		c.Rect = image.Rect(v[0], v[1], v[2], v[3])
 	case "A", "a":
 		c.F = f(t[1], t[2], t[3], t[6], t[7])
 		c.La, c.Sw = t[4] == "1", t[5] == "1"
